@@ -3,13 +3,11 @@ module verif
 go 1.23
 
 require (
+	github.com/Breeze0806/go v0.0.0-20210513031655-61a934305111
 	github.com/Breeze0806/gobinlog v0.0.0
 	pgregory.net/rapid v1.3.0
 )
 
-require (
-	github.com/Breeze0806/go v0.0.0-20210513031655-61a934305111 // indirect
-	github.com/Breeze0806/mysql v1.4.2 // indirect
-)
+require github.com/Breeze0806/mysql v1.4.2 // indirect
 
 replace github.com/Breeze0806/gobinlog => /repo
